@@ -603,7 +603,7 @@ class RejectionPrefixes(Unit):
                  "orquesta.machines.WorkflowStateMachine.is_transition_valid"]
     obligations = {
         "C04.rws.rejected_before_any_effect": {"props": ["C04"], "text":
-            "for every state: a status request for which the workflow table has no transition at all from the current status raises InvalidWorkflowStatusTransition before any task or the workflow state is read further or written"},
+            "for every state: a status request for which the row of the current status has no event at all (neither the bare request nor a contextualised form of it) raises InvalidWorkflowStatusTransition before any task or the workflow state is read further or written; a request the row does have an event for is never refused by that validation (e.g. canceling requested on a paused workflow is served by workflow_canceling_workflow_dormant)"},
         "C11.uts.validation_before_any_effect": {"props": ["C11", "C15", "C04"], "text":
             "for every state: update_task_state rejects a non-event (TypeError), a task unknown to the graph (InvalidTask) and a task that is neither staged nor has a record (InvalidTaskStateEntry) before anything is written"},
     }
@@ -638,13 +638,23 @@ class RejectionPrefixes(Unit):
                 raised = r
             except S.Unsupported:
                 beyond = True
-            no_transition = old_c in table and req_c != old_c and req_c not in table[old_c].values()
+            # the request is hopeless when the row of the current status has no event for it at all -
+            # neither the bare request event nor one of its contextualised forms (.._workflow_active /
+            # _dormant / _completed).  NOT "the requested status is not among the row's values": a
+            # canceling request on a paused workflow is served by workflow_canceling_workflow_dormant -> canceled.
+            ev_name = "workflow_%s" % req_c
+            row = table.get(old_c, {})
+            has_event = any(k == ev_name or k.startswith(ev_name + "_workflow_") for k in row)
+            hopeless = req_c != old_c and not has_event
             writes = [t for t in e.path.trace if t[0] in ("setattr", "setitem", "list_append", "dict_pop", "list_remove")]
-            if no_transition and old_c in table:
+            if hopeless:
                 ok = raised is not None and raised.cls in (exc.InvalidWorkflowStatusTransition,) and not touched and not writes and not beyond
                 ctx.oblige("C04.rws.rejected_before_any_effect", ok, None, {"old": old_c, "req": req_c, "raised": repr(raised)})
             else:
-                ctx.oblige("C04.rws.rejected_before_any_effect", True, None, {"old": old_c, "req": req_c})
+                # a request the row does have an event for is not refused by the validation prefix: the
+                # call goes on to consult the tasks (the abstract state stops the exploration there)
+                ok = raised is None and (beyond or touched)
+                ctx.oblige("C04.rws.rejected_before_any_effect", ok, None, {"old": old_c, "req": req_c, "raised": repr(raised), "served_by": sorted(k for k in row if k == ev_name or k.startswith(ev_name + "_workflow_"))})
             ctx.canary()
 
         ctx.eng.explore(thunk)
